@@ -403,7 +403,19 @@ def _read_request(
 
     """
     reader = ValidatedReader(ipc.open_stream(reader_stream), ipc_validation)
-    batch, custom_metadata = reader.read_next_batch_with_custom_metadata()
+    try:
+        batch, custom_metadata = reader.read_next_batch_with_custom_metadata()
+    except StopIteration:
+        # A well-framed stream with a schema and EOS but no batch.  The stream
+        # has been read to its end, so the transport is aligned for the next
+        # request; StopIteration itself must not leave this function — the
+        # serve loop reads it as "peer closed" and ends without a reply.
+        raise RpcError(
+            "ProtocolError",
+            "Request stream contains no batch. Each request is one IPC stream holding exactly one batch "
+            "whose custom_metadata carries 'vgi_rpc.method' and 'vgi_rpc.request_version'.",
+            "",
+        ) from None
     # Drain past the request stream's EOS *before* any validation that
     # might raise.  On pipe/subprocess transports the underlying reader
     # is shared across requests, so a rejected request that left bytes
